@@ -47,6 +47,9 @@ pub mod d5 {
     include!(concat!(env!("OUT_DIR"), "/a.b.S.rs"));
 }
 
+pub mod d7 {
+    include!(concat!(env!("OUT_DIR"), "/GreeterAdmin.rs"));
+}
 pub mod d6 {
     include!(concat!(env!("OUT_DIR"), "/u.Unit.rs"));
 }
@@ -186,6 +189,12 @@ impl d3::greeter_server::Greeter for H {
 }
 #[anemo::async_trait]
 impl d4::greeter_server::Greeter for H {}
+#[anemo::async_trait]
+impl d7::greeter_admin_server::GreeterAdmin for H {
+    async fn m(&self, request: Request<Msg>) -> Result<Response<Reply>, Status> {
+        self.typed("m", request)
+    }
+}
 #[anemo::async_trait]
 impl d5::s_server::S for H {
     async fn m(&self, request: Request<Msg>) -> Result<Response<Reply>, Status> {
@@ -406,7 +415,9 @@ macro_rules! run_service {
 /// a misrouted call shows up as a missing invocation plus a NotFound or a wrong reply).
 fn mount_all(_h: &H) -> Router {
     let other = |svc: &'static str| H { svc, log: Default::default(), outcome: Arc::new(Mutex::new(Outcome::Ok)), raw_garbage: Default::default() };
-    Router::new().add_rpc_service(d4::greeter_server::GreeterServer::new(other("p.Greeter(decoy)")))
+    Router::new()
+        .add_rpc_service(d4::greeter_server::GreeterServer::new(other("p.Greeter(decoy)")))
+        .add_rpc_service(d7::greeter_admin_server::GreeterAdminServer::new(other("GreeterAdmin(decoy)")))
 }
 
 fn main() {
